@@ -163,6 +163,16 @@ int main(int argc, char** argv)
                         ctx.each([&] { return chk.describe(pr.second, av, {}); },
                                  [&](mc::Report& rep) { chk.run_after_replace(pr.first, old, pr.second, av, rep, idx); });
                     });
+            // the parser was used before its declaration was complete (items or short names added through kept references
+            // after usage() and warm-up parses), or held the neighbouring declaration before: every 9th declaration of the grid
+            for (size_t di = 0; di < decls.size(); di += 9)
+            {
+                const Decl& D = decls[di];
+                const Decl& Dprev = decls[(di + decls.size() - 1) % decls.size()];
+                if (D.items.empty())
+                    continue;
+                for_all_vectors(alphabet(D), a.asan() ? 1 : 2, ctx, [&](const std::vector<std::string>& av) { chk.used_before(ctx, D, Dprev, av, {}); });
+            }
         };
         auto rep3 = sh3.run();
         rep3.counters.erase("wall_ms");
